@@ -1,0 +1,5 @@
+//go:build !verif
+
+package enum
+
+func verifScanStep(any, byte, int, int) {}
